@@ -158,9 +158,9 @@ func (p *Parser) parseStatement() ast.Statement {
 	case token.HTML:
 		return p.parseHTMLStmt()
 	case token.LBRACES:
-		return p.parseEmbeddedCode()
+		return p.parseBracesStmt()
 	case token.SEMI:
-		return p.parseEmbeddedCode()
+		return p.parseBracesStmt()
 	case token.IF:
 		return p.parseIfStmt()
 	case token.FOR:
@@ -190,6 +190,24 @@ func (p *Parser) parseStatement() ast.Statement {
 	default:
 		return nil
 	}
+}
+
+// parseBracesStmt parses one statement written between "{{" and "}}".
+// The statement must be followed by ";" or by the closing "}}".
+func (p *Parser) parseBracesStmt() ast.Statement {
+	stmt := p.parseEmbeddedCode()
+
+	if stmt == nil {
+		return nil
+	}
+
+	if p.curTokenIs(token.RBRACES) || p.peekTokenIs(token.RBRACES, token.SEMI) {
+		return stmt
+	}
+
+	p.expectPeek(token.RBRACES) // reports the unexpected token
+
+	return nil
 }
 
 func (p *Parser) parseEmbeddedCode() ast.Statement {
